@@ -23,6 +23,7 @@ import (
 	"time"
 
 	"github.com/sassoftware/relic/v8/config"
+	"github.com/sassoftware/relic/v8/signers"
 	"github.com/sassoftware/relic/v8/token"
 
 	"verif/gen/dergen"
@@ -58,6 +59,7 @@ type finding struct {
 	count  int
 	desc   string
 	replay any
+	order  string
 }
 
 var (
@@ -66,17 +68,28 @@ var (
 )
 
 // violation records a reference verifier rejecting / a reference computation
-// differing. The first (enumeration order is simplest-first) case is kept as
-// the reproducer.
+// differing. Of all cases with the same key the one with the shortest (then
+// lexicographically first) case description is kept as the reproducer, so the
+// report does not depend on goroutine scheduling.
 func violation(key, desc string, replay any) {
+	order := fmt.Sprintf("%06d %s", len(desc), desc)
+	if m, ok := replay.(map[string]any); ok {
+		if c, ok := m["case"].(sigCase); ok {
+			cs := c.String()
+			order = fmt.Sprintf("%06d %s", len(cs), cs)
+		}
+	}
 	findMu.Lock()
 	defer findMu.Unlock()
 	f := findings[key]
 	if f == nil {
-		findings[key] = &finding{count: 1, desc: desc, replay: replay}
+		findings[key] = &finding{count: 1, desc: desc, replay: replay, order: order}
 		return
 	}
 	f.count++
+	if order < f.order {
+		f.desc, f.replay, f.order = desc, replay, order
+	}
 }
 
 func flushFindings() {
@@ -88,7 +101,7 @@ func flushFindings() {
 	var extraHits []map[string]any
 	for _, k := range ks {
 		f := findings[k]
-		desc := fmt.Sprintf("%s [cases=%d; first reproducer kept]", f.desc, f.count)
+		desc := fmt.Sprintf("%s [cases=%d; shortest case kept as reproducer]", f.desc, f.count)
 		if extraKnown[k] {
 			fmt.Printf("KNOWN-FINDING(dev, C05_KNOWN_EXTRA): property=C05 key=%s hits=%d :: %s\n", k, f.count, f.desc)
 			extraHits = append(extraHits, map[string]any{"key": k, "hits": f.count, "what": f.desc})
@@ -284,15 +297,50 @@ func signedOK(c sigCase, err error) bool {
 	return true
 }
 
+var moduleOf = map[string]string{"pe": "pe-coff", "xml": "appmanifest"}
+
 func relicAccepts(c sigCase, path string, content string) bool {
 	opts := relicx.TrustOpts()
 	opts.Content = content
 	var sigs int
-	err := guard(func() error {
-		s, e := relicx.Verify(path, opts)
-		sigs = len(s)
-		return e
-	})
+	verify := func() error {
+		return guard(func() error {
+			s, e := relicx.Verify(path, opts)
+			sigs = len(s)
+			return e
+		})
+	}
+	err := verify()
+	if err != nil {
+		// `relic verify` picks the verifier from the first bytes of the file
+		// (unknown type for PE headers beyond its peek window; a PKCS#7 OID in
+		// the first 256 bytes of a tiny cabinet selects the pkcs verifier): the
+		// signer module's own verifier is then asked directly. Detection is
+		// C01's matter; it is tallied here.
+		first := err
+		name := moduleOf[c.Fmt]
+		if name == "" {
+			name = c.Fmt
+		}
+		if mod := signers.ByName(name); mod != nil {
+			err = guard(func() error {
+				f, e := os.Open(path)
+				if e != nil {
+					return e
+				}
+				defer f.Close()
+				o := opts
+				o.FileName = path
+				s, e := relicx.VerifyWith(mod, f, o)
+				sigs = len(s)
+				return e
+			})
+			if err == nil && sigs > 0 {
+				run.Outcome("relic-verify-type-detection-failed:" + c.Fmt + ":" + short(first))
+				tally("cases:"+c.Fmt, "type mis/undetected by `relic verify` (module verifier used instead)", 1)
+			}
+		}
+	}
 	if err != nil || sigs == 0 {
 		msg := "no signature found"
 		if err != nil {
@@ -300,7 +348,11 @@ func relicAccepts(c sigCase, path string, content string) bool {
 		}
 		run.Outcome("precondition-failed:relic-rejects-own-output:" + c.Fmt + ":" + msg)
 		tally("cases:"+c.Fmt, "relic-rejects-own-output(C01 matter)", 1)
-		tally("precondition_failures", c.String()+": "+msg, 1)
+		fam := c.Shape
+		if i := strings.IndexAny(fam, ":/"); i > 0 {
+			fam = fam[:i]
+		}
+		tally("precondition_failures", c.Fmt+"["+fam+"] flags="+c.flagKey()+": "+msg, 1)
 		return false
 	}
 	tally("cases:"+c.Fmt, "relic-verified", 1)
